@@ -16,11 +16,7 @@ Theorem C29_prioritize_stream_zero_refuted :
   let c := run (conn_new cfgc) [OInitiate] in snd (step c (OPrioritize 0 None None None)) = Crash ForeignError.
 Proof. vm_compute. reflexivity. Qed.
 
-(* F-C29-3: advertise_alternative_service with neither origin nor stream: TypeError *)
-Theorem C29_altsvc_without_target_refuted :
-  let c := run (conn_new cfgs) [OInitiate] in snd (step c (OAdvertiseAltSvc [104] None None)) = Crash TypeError.
-Proof. vm_compute. reflexivity. Qed.
+(* F-C29-3 (advertise_alternative_service with neither origin nor stream: TypeError) is repaired by fix c0a4c40 *)
 
 Print Assumptions C29_close_connection_oversize_refuted.
 Print Assumptions C29_prioritize_stream_zero_refuted.
-Print Assumptions C29_altsvc_without_target_refuted.
